@@ -335,7 +335,41 @@ def run_c10(t):
             return False, {"why": "arms / cold_arms differ after continuation call %d" % i}
     return True, {}
 
+def gen_c10_warm_after_query(rng):
+    """an arm is left cold by the training data, the bandit is queried, THEN warm_start copies a trained arm into the cold one,
+    then queries: whatever a query may have stored per arm must not survive the copy (context-free and linear policies)"""
+    if rng.random() < 0.6:
+        base = gen.gen_ctx_case(rng, nps=["none"], lps=gen.LIN_KINDS, max_ops=0, queries=False, arm_changes=False, max_rows=25)
+    else:
+        base = gen.gen_cf_case(rng, kinds=["greedy", "ucb", "softmax", "thompson", "popularity"], max_ops=0, warm=False, max_rows=25, foreign_decisions=False)
+    fit = next((o for o in base["ops"] if o[0] in ("fit", "pfit")), None)
+    if fit is None:
+        return None
+    arms = list(base["arms"])
+    present = sorted(set(a for a in fit[1] if a in arms))
+    if len(present) < 2:
+        return None
+    cold = rng.choice(present)
+    keep = [i for i, a in enumerate(fit[1]) if a != cold]
+    fit2 = ("fit", [fit[1][i] for i in keep], [fit[2][i] for i in keep], None if fit[3] is None else [fit[3][i] for i in keep])
+    d = None if fit[3] is None else len(fit[3][0])
+    donor = rng.choice([a for a in present if a != cold])
+    dim = rng.randint(1, 3)
+    feats = {a: [float(rng.randint(1, 4)) for _ in range(dim)] for a in arms}
+    feats[cold] = list(feats[donor])
+    queries = [(rng.choice(["pred", "pexp"]), None if d is None else gen.gen_ctx(rng, rng.choice([1, 2, 3]), d)) for _ in range(rng.randint(1, 3))]
+    cont = [("warm", arms, [feats[a] for a in arms], 1.0)]
+    for _ in range(2):
+        cont.append(("pexp", None if d is None else gen.gen_ctx(rng, rng.choice([1, 2, 4]), d)))
+    cont.append(("pred", None if d is None else gen.gen_ctx(rng, 2, d)))
+    base = dict(base); base["ops"] = [fit2]
+    return {"base": base, "history": [fit2], "queries": queries, "continuation": cont}
+
 def gen_c10(rng, tier):
+    if rng.random() < 0.12:
+        t = gen_c10_warm_after_query(rng)
+        if t is not None:
+            return t
     ctx = rng.random() < 0.65
     if ctx:
         base = gen.gen_ctx_case(rng, max_ops=6, warm=True, max_rows=25)
@@ -785,7 +819,7 @@ def bad_call(mab, label, inv, base, cls, rng, d, arms, fitted):
             meth(ds, rs, cx[:-1])
         elif cls == "ctx_width":
             if not (contextual and fitted): return "n/a"
-            mab.partial_fit(ds, rs, gen.gen_ctx(rng, n, dd + 1))
+            mab.partial_fit(ds, rs, gen.gen_ctx(rng, n, dd + 1 if (dd == 1 or rng.random() < 0.5) else dd - 1))
         elif cls == "add_dup":
             mab.add_arm(rng.choice(la))
         elif cls == "add_none":
@@ -853,6 +887,22 @@ def run_c17(t):
     cxx = None if not mab.is_contextual else gen.gen_ctx(rng, n, dd or 2)
     if cxx is not None and base.get("np") and base["np"][0] == "clusters":
         for i in range(min(n, 4)): cxx[i][0] = float(i)
+    if mab.is_contextual and fitted and d and rng.random() < 0.5:
+        # the first query after the rejected call arrives as a pandas Series (one row of d features, or rows of a single feature):
+        # how it is read depends on the feature count the bandit remembers
+        import pandas as pd
+        vals = [float(v) for v in (gen.gen_ctx(rng, 1, d)[0] if d > 1 else [r[0] for r in gen.gen_ctx(rng, rng.choice([2, 3]), 1)])]
+        def series_query(m):
+            try:
+                r = m.predict_expectations(pd.Series(vals))
+                r = r if isinstance(r, list) else [r]
+                return ("exps", [[(inv(a), mwh.canon_val(v)) for a, v in dct.items()] for dct in r])
+            except Exception as e:
+                return ("rejected", type(e).__name__)
+        a = series_query(mab); b = series_query(twin)
+        if a[0] != b[0] or (a[0] == "exps" and not outs_equal(a, b, rel_mode(base), rtol=1e-12)):
+            return False, {"why": "after a rejected %s call (%s) a query passed as a pandas Series is answered differently from the bandit that never saw the call" % (t["cls"], type(exc).__name__),
+                           "after_rejected": str(a)[:300], "never_called": str(b)[:300], "series": vals}
     cont.append(("pfit", dsx, [draw() for _ in range(n)], cxx))
     cont.append(("pexp", None if cxx is None else gen.gen_ctx(rng, 2, dd or 2)))
     cont.append(("pred", None if cxx is None else [list(cxx[0])]))
@@ -1168,6 +1218,29 @@ def gen_c05(rng, tier):
         q = gen.gen_ctx(rng, 3, d)
         base["ops"] = [fit0, ("pexp", q), ("fit", ds, [draw() for _ in range(n)], cxn), ("pexp", q)] + base["ops"][1:]
         return {"base": base, "n_jobs": 2, "backend": None, "mode": "jobs", "seed2": rng.randint(0, 10**9)}
+    if z < 0.17:
+        # Radius / KNearest with a metric whose parameters scipy estimates from the data (seuclidean, mahalanobis) or another
+        # rarely used one; fit -> query -> partial_fit with differently spread contexts -> query; process-based workers
+        base = gen.gen_ctx_case(rng, nps=[rng.choice(["radius", "knearest"])], lps=["ucb", "greedy", "linucb"], max_ops=0, queries=False,
+                                arm_changes=False, force_dim=2, max_rows=20, njobs=False)
+        if base["lp"][0] == "greedy":
+            base["lp"] = ("greedy", 0.0)
+        metric = rng.choice(["seuclidean", "mahalanobis", "seuclidean", "mahalanobis", "cosine", "canberra", "braycurtis"])
+        fit0 = base["ops"][0]
+        while len(fit0[1]) < 8:
+            fit0 = ("fit", fit0[1] + fit0[1], fit0[2] + fit0[2], fit0[3] + gen.gen_ctx(rng, len(fit0[3]), 2))
+        npol = list(base["np"])
+        if npol[0] == "radius":
+            npol[1] = rng.choice([0.75, 1.0, 1.5, 2.0]); npol[2] = metric; npol[3] = None
+        else:
+            npol[1] = rng.randint(1, 3); npol[2] = metric
+        base["np"] = tuple(npol)
+        arms = base["arms"]; n = rng.randint(6, 12)
+        draw = gen.reward_stream(rng, base.get("reward_style", "dyadic"))
+        wide = [[float(rng.randint(0, 40)), float(rng.randint(0, 3)) / 4.0] for _ in range(n)]      # another spread per feature
+        q = gen.gen_ctx(rng, 4, 2) + [list(fit0[3][0])]
+        base["ops"] = [fit0, ("pexp", q), ("pfit", [rng.choice(arms) for _ in range(n)], [draw() for _ in range(n)], wide), ("pexp", q), ("pred", q)]
+        return {"base": base, "n_jobs": rng.choice([2, 3]), "backend": rng.choice([None, "loky", "threading"]), "mode": "jobs", "seed2": rng.randint(0, 10**9)}
     if z < 0.3:
         base = gen.gen_cf_case(rng, max_ops=5, warm=False)
     else:
